@@ -292,6 +292,7 @@ func genCopyWorld(r *rand.Rand, c *CliCase, l Layout, vmode int) {
 }
 
 func genDiffWorld(r *rand.Rand, c *CliCase, l Layout, vmode int) {
+	plus := chance(r, 0.2) // file names with characters that need query escaping
 	nfiles := 1
 	glob := chance(r, 0.2)
 	if glob {
@@ -299,6 +300,9 @@ func genDiffWorld(r *rand.Rand, c *CliCase, l Layout, vmode int) {
 	}
 	for i := 0; i < nfiles; i++ {
 		rel := fmt.Sprintf("d/f%d.wsp", i)
+		if plus {
+			rel = fmt.Sprintf("d/f%d+a&b=c.wsp", i)
+		}
 		src := WFile{Base: "src", Rel: rel, Layout: l, Fills: genFills(r, l, vmode, 0.6), Link: chance(r, 0.1)}
 		dst := WFile{Base: "dst", Rel: rel, Layout: l}
 		switch r.IntN(6) {
@@ -375,6 +379,7 @@ func genDiffWorld(r *rand.Rand, c *CliCase, l Layout, vmode int) {
 
 func genSumWorld(r *rand.Rand, c *CliCase, l Layout, withDest bool) {
 	nitems := int(between(r, 1, 3))
+	plus := chance(r, 0.15)
 	for it := 0; it < nitems; it++ {
 		item := fmt.Sprintf("grp/it%d", it)
 		nf := int(between(r, 1, 5))
@@ -383,7 +388,11 @@ func genSumWorld(r *rand.Rand, c *CliCase, l Layout, withDest bool) {
 		}
 		for f := 0; f < nf; f++ {
 			// dyadic values: every summation order gives the same float64
-			c.Files = append(c.Files, WFile{Base: "src", Rel: fmt.Sprintf("%s/s%d.wsp", item, f), Layout: l, Fills: genFills(r, l, 1, 0.7), Link: chance(r, 0.05)})
+			name := fmt.Sprintf("s%d.wsp", f)
+			if plus {
+				name = fmt.Sprintf("s+%d&=.wsp", f)
+			}
+			c.Files = append(c.Files, WFile{Base: "src", Rel: item + "/" + name, Layout: l, Fills: genFills(r, l, 1, 0.7), Link: chance(r, 0.05)})
 		}
 		if withDest {
 			dst := WFile{Base: "dst", Rel: fmt.Sprintf("%s/sum.wsp", item), Layout: l}
@@ -399,7 +408,11 @@ func genSumWorld(r *rand.Rand, c *CliCase, l Layout, withDest bool) {
 			c.Files = append(c.Files, dst)
 		}
 	}
-	cmd := Cmd{Item: pick(r, "grp/it*", "grp/it0", "grp/*"), Src: pick(r, "*.wsp", "s*.wsp", "s0.wsp"), Archive: genArchiveSel(r, len(l.Archs)), ViaParse: chance(r, 0.3), NoHeader: chance(r, 0.3)}
+	srcPat := pick(r, "*.wsp", "s*.wsp", "s0.wsp")
+	if plus {
+		srcPat = pick(r, "*.wsp", "s+*.wsp", "s+0&=.wsp")
+	}
+	cmd := Cmd{Item: pick(r, "grp/it*", "grp/it0", "grp/*"), Src: srcPat, Archive: genArchiveSel(r, len(l.Archs)), ViaParse: chance(r, 0.3), NoHeader: chance(r, 0.3)}
 	if withDest {
 		cmd.Kind = "sum-copy"
 		cmd.Dest = "sum.wsp"
